@@ -139,7 +139,8 @@ fn generate(rng: &mut Rng) -> C14Sc {
                 }
                 let id = Identity { name: "CookieIdent".into(), uuid: 0xc00c1e, props: vec![] };
                 let body = cookie_json((wall.base_s + *think_s).saturating_sub(*age_s), &effective, &id, Some("t0"));
-                let sec = if *right_secret { secret.clone().unwrap_or_else(|| b"none".to_vec()) } else { b"another-secret".to_vec() };
+                // (with no secret configured a cookie under the empty key - or any key - means nothing)
+                let sec = if *right_secret { secret.clone().unwrap_or_else(|| if rng.chance(1, 2) { vec![] } else { b"none".to_vec() }) } else { b"another-secret".to_vec() };
                 spec.auth_cookie = Some(signed_cookie(&sec, &body));
             }
             Role::Silent => {
